@@ -725,23 +725,24 @@ func c05ctx() context.Context {
 }
 
 type c05obs struct {
-	setupErr  string
-	class     string
-	result    string
-	elapsed   time.Duration
-	hang      bool
-	panicMsg  string
-	e0        int
-	writes    []sim.WriteEvent
-	emitted   []byte // everything the device emitted from the operation's start on
-	readLog   []int  // sizes of the reads delivered from the operation's start on
-	nextRan   bool
-	nextLevel string // device-side log: "" = the recovery exchange ran at the level it demands
-	nextClass string
-	trace     string
-	nextRes   string
-	nextPanic string
-	nextHang  bool
+	setupErr    string
+	class       string
+	result      string
+	elapsed     time.Duration
+	hang        bool
+	panicMsg    string
+	e0          int
+	writes      []sim.WriteEvent
+	emitted     []byte // everything the device emitted from the operation's start on
+	readLog     []int  // sizes of the reads delivered from the operation's start on
+	nextRan     bool
+	nextLevel   string // device-side log: "" = the recovery exchange ran at the level it demands
+	nextClass   string
+	trace       string
+	phaseWrites []int
+	nextRes     string
+	nextPanic   string
+	nextHang    bool
 }
 
 // c05guard runs f with a watchdog and a panic trap (a panic in the caller's goroutine).
@@ -822,6 +823,7 @@ func c05run(cs c05case, recoverAt func(k int) bool) c05obs {
 			}
 		})
 	}
+	o.phaseWrites = e.phaseWrites
 	res, opErr, el, hang, pmsg := c05guardT(e.op, c05wd(cs))
 	o.result, o.elapsed, o.hang, o.panicMsg = res, el, hang, pmsg
 	o.class = errClass(opErr)
@@ -984,7 +986,26 @@ func c05reached(ref *c05ref, cs c05case, o c05obs) bool {
 	if o.class == "nil" {
 		return true
 	}
-	return n >= want
+	if n < want {
+		return false
+	}
+	// A stall exactly at the start of phase ph > 0 is only "reached" if the client had also done the
+	// writes that open that phase (e.g. the callback answered the prompt): the bytes of the earlier
+	// phases can have been delivered to the transport while a starved client had not yet acted on
+	// them when its deadline passed, and then the device is not in the state the schedule assumes.
+	// (For k beyond the phase start the device only emits after receiving those writes, so the
+	// delivered count alone implies them.)
+	ph := c05stalledPhase(ref, want)
+	if ph > 0 && want == ref.starts[ph] && len(o.phaseWrites) > ph {
+		need := 0
+		for _, w := range o.phaseWrites[:ph+1] {
+			need += w
+		}
+		if len(o.writes) < need {
+			return false
+		}
+	}
+	return true
 }
 
 func c05stalledPhase(ref *c05ref, k int) int {
